@@ -17,9 +17,11 @@ import (
 	"reflect"
 	"regexp"
 	"strconv"
+	"strings"
 
 	"verif/internal/bytemc"
 	"verif/internal/core"
+	"verif/internal/gens"
 	"verif/internal/mach"
 	"verif/internal/ref/jsonref"
 )
@@ -175,7 +177,83 @@ func run(c *core.Ctx) {
 		// pass B: shallow nesting, exactly two insertions
 		explore(c, m, sub, 2, 2, false)
 	}
+	if sub == 0 {
+		refillPositions(c, m)
+	}
 	c.Add("traces_validated_against_impl", c.Report().Counters["evaluations"])
+}
+
+// refillPositions: the witnesses of the search are a few bytes long, so none of
+// them is read in more than one buffer unless the harness cuts it. Here the
+// text is longer than the 4096 bytes a reader entry point asks for: elements
+// with line feeds (3.9 KB), then a tail without a line feed that runs across
+// the refill (a 300-byte string, or 150 one-digit numbers), then a closer of
+// the wrong kind. The last line feed is in the first buffer and the offending
+// byte in the second, so the column is right only if the line start is kept
+// relative to the whole input. Shifted by 0..7 blanks; []byte, reads of 4096
+// (io.EOF on its own and with the last read), two reads meeting at the refill.
+func refillPositions(c *core.Ctx, m *mach.M) {
+	const unit = `{"k":"v\n","n":-12.5e1,"t":true,"p":"plain",` + "\n" + `"a":[null,false]},`
+	tails := []string{`"` + gens.ScaleString(300) + `"`, strings.TrimSuffix(strings.Repeat("1,", 150), ",")}
+	for ti, tail := range tails {
+		for p := 0; p < 8; p++ {
+			in := []byte(strings.Repeat(" ", p) + "[" + strings.Repeat(unit, 3950/len(unit)) + tail + "}")
+			k := len(in) - 1
+			if r := jsonref.Run(in[:k]); !r.Alive() || jsonref.Run(in).Alive() || bytes.LastIndexByte(in, '\n') >= 4096 || k <= 4096 {
+				c.HarnessError("refill positions: the text is not what it is meant to be (tail %d shift %d)", ti, p)
+				return
+			}
+			el, ec := expected(in, k)
+			fixed := func(n int) [][]byte {
+				var out [][]byte
+				for i := 0; i < len(in); i += n {
+					e := i + n
+					if e > len(in) {
+						e = len(in)
+					}
+					out = append(out, in[i:e])
+				}
+				return out
+			}
+			runs := []struct {
+				entry, class string
+				chunks       [][]byte
+				cf           mach.Config
+			}{
+				{"whole", "whole", [][]byte{in}, mach.Config{}},
+				{"reader", "reads-of-4096", fixed(4096), mach.Config{}},
+				{"reader", "reads-of-4096+eof-with-last-chunk", fixed(4096), mach.Config{EOFWithLast: true}},
+				{"reader", "two-reads-meeting-at-4096", [][]byte{in[:4096], in[4096:]}, mach.Config{}},
+				{"reader", "two-reads-meeting-at-4095", [][]byte{in[:4095], in[4095:]}, mach.Config{}},
+				{"reader", "reads-of-1000", fixed(1000), mach.Config{}},
+			}
+			for _, r := range runs {
+				var o *mach.Out
+				if r.entry == "whole" {
+					o = m.Whole(in, mach.Config{})
+				} else {
+					o = m.Feed(r.chunks, r.cf, false, false)
+				}
+				c.Eval()
+				c.Add("refill_position_runs", 1)
+				if o.Panic != nil || o.Err == nil {
+					continue // C06's / C01's business
+				}
+				l, col, ok := position(o.Err)
+				if !ok || (l == el && col == ec) {
+					continue
+				}
+				disc := fmt.Sprintf("col%+d", col-ec)
+				if l != el {
+					disc = fmt.Sprintf("line%+d", l-el)
+				} else if d := col - ec; d > 3 || d < -3 {
+					disc = "col-far"
+				}
+				cs := caseT{Machine: m.Name, Entry: r.entry, Chunks: r.chunks, Input: fmt.Sprintf("refill positions: tail %d, shift %d", ti, p), At: k, EOFWithLast: r.cf.EOFWithLast}
+				c.Fail(core.Sig("fe="+m.Name+"."+r.entry, "chunking="+r.class, "at=byte", disc, "mode=past-the-4096-refill"), cs, len(in)+len(r.chunks), fmt.Sprintf("%d:%d", el, ec), fmt.Sprintf("%d:%d (%v)", l, col, o.Err))
+			}
+		}
+	}
 }
 
 // envLight: the two-insertion pass of the thorough tier runs the reader-answer
